@@ -167,6 +167,7 @@ class GenCfg(object):
         self.allow_exp_prim = True      # F2 shape
         self.allow_constraints = False
         self.allow_constructed_default = False
+        self.allow_untyped_of = False
         self.big_strings = False
         self.__dict__.update(kw)
 
@@ -197,6 +198,12 @@ def gen_desc(r, cfg, depth=0, top=True):
             d['con'] = {'size': [lo, lo + r.choice([0, 1, 3])]}
             if lo and r.random() < 0.15:
                 d['con'] = {'size': [lo, 'MAX']}
+        if getattr(cfg, 'allow_untyped_of', False) and r.random() < 0.25 and not d['of']['tags'] and \
+                d['of']['k'] in ('INTEGER', 'OCTETSTRING', 'BOOLEAN', 'NULL') and not d['of'].get('con') \
+                and not d['of'].get('named'):
+            # a collection declared without an element type (univ.SequenceOf(subtypeSpec=...)): the elements are
+            # taken by their universal tags; the SIZE constraint is all the declaration says
+            d['untyped'] = True
             if r.random() < 0.35:
                 # the same SIZE declared through the documented legacy keyword, on a derived type
                 d['con_api'] = r.choice(['sizeSpec-subtype', 'sizeSpec-clone', 'sizeSpec-init'])
@@ -741,7 +748,8 @@ def build_schema(desc):
                     f['n'], build_value(sub, f['d'], f['dv']), **okw))
         kw['componentType'] = p.namedtype.NamedTypes(*nts)
     elif k in ('SEQOF', 'SETOF'):
-        kw['componentType'] = build_schema(desc['of'])
+        if not desc.get('untyped'):
+            kw['componentType'] = build_schema(desc['of'])
     elif k == 'CHOICE':
         kw['componentType'] = p.namedtype.NamedTypes(
             *[p.namedtype.NamedType(n, build_schema(a)) for n, a in desc['alts']])
@@ -864,8 +872,9 @@ def build_value(schema, desc, v):
     if k in ('SEQOF', 'SETOF'):
         obj = schema.clone()
         obj.clear()
+        esch = schema.componentType if schema.componentType is not None else build_schema(desc['of'])
         for i, x in enumerate(v):
-            obj.setComponentByPosition(i, build_value(schema.componentType, desc['of'], x))
+            obj.setComponentByPosition(i, build_value(esch, desc['of'], x))
         return obj
     if k == 'CHOICE':
         obj = schema.clone()
@@ -1332,6 +1341,11 @@ def conforms(obj, desc, schema, path='$'):
             c = obj.getComponentByPosition(i, default=None, instantiate=False)
             if c is None:
                 return '%s[%d]: hole' % (path, i)
+            if desc.get('untyped'):
+                # no element type is declared: any complete value will do
+                if not c.isValue:
+                    return '%s[%d]: not a value' % (path, i)
+                continue
             r = conforms(c, desc['of'], schema.componentType, '%s[%d]' % (path, i))
             if r:
                 return r
